@@ -12,7 +12,7 @@ impl<A> SeqIt<A> {
     #[verifier::external_body]
     pub fn take(self, n: usize) -> (r: SeqIt<A>) ensures r@ == (if n <= self@.len() { self@.subrange(0, n as int) } else { self@ }) { unimplemented!() }
     #[verifier::external_body]
-    pub fn map<B, F: Fn(A) -> B>(self, f: F) -> (r: SeqIt<B>)
+    pub fn map<B, F: FnMut(A) -> B>(self, f: F) -> (r: SeqIt<B>)
         requires forall|a: A| call_requires(f, (a,)),
         ensures r@.len() == self@.len(), forall|i: int| 0 <= i < self@.len() ==> call_ensures(f, (self@[i],), #[trigger] r@[i])
     { unimplemented!() }
